@@ -348,6 +348,10 @@ def run(ctx):
     # the Typst renderer takes an image's components from Term::get_components_including_placeholder (seed c16-k: placeholder index clamped)
     import lskel as _lskel
     _lskel.rule_L_SKELETON(ctx, which=('term',), floor=10)
+    # the renderer reads a sentence's punctuation / truth / stamp / term through the Sentence accessors (seed c16-z: get_punctuation's Quest arm
+    # returned Question, so a quest and a question rendered alike)
+    import c01 as _c01
+    _c01.rule_K_PUNCT_accessors(ctx)
     ctx.undecided = ["injectivity of rendering over all pairs of values (only per-role/per-category distinctness and the layout rule are decided)",
                      "rendering equality up to the order of unordered components (depends on set iteration order)"]
     ctx.assumptions = ["ToDebug on the atom name yields a quoted, escaped string", "terms are finite trees (the formatter recurses on components)"]
